@@ -147,21 +147,6 @@ Theorem C24_multi_keeps_suppressions pm k bn bf fs n f seen sr :
 Proof. intros H H1 H2 H3. exact (proj1 (multi_files_spec pm k bn bf fs n f seen sr H H1 H2 H3)). Qed.
 Print Assumptions C24_multi_keeps_suppressions.
 
-(* REFUTED for the thread and process executors: with --suppress=nullPointer
-   --suppress=nullPointer:a.c and one nullPointer finding in a.c, -j1 reports nothing, but
-   the multi-job executors report the global `nullPointer` as unmatched although it hides
-   the finding: the worker consults local suppressions only, the finding never reaches the
-   parent, so the global entry's flag is never set *)
-Theorem C24_executor_independent_refuted :
-  exists o1 o2 s,
-    whole_run pm_eq None w24_cfg w24_nomsg [] w24_files [] = Some o1
-    /\ whole_run pm_eq (Some EThread) w24_cfg w24_nomsg [] w24_files [] = Some o2
-    /\ whole_run pm_eq (Some EProcess) w24_cfg w24_nomsg [] w24_files [] = Some o2
-    /\ o_unmatched o1 = [] /\ o_unmatched o2 = [s]
-    /\ hides pm_eq true w24_finding s = true.
-Proof. exact witness_executor_dependent. Qed.
-Print Assumptions C24_executor_independent_refuted.
-
 (* premises are inhabited *)
 Example C24_ex_inline_present : Forall (inline_present w24_nomsg) w24_files.
 Proof. repeat constructor. Qed.
